@@ -65,6 +65,67 @@ Print Assumptions C15_cross_moment_symmetric.
 Print Assumptions C15_moment_is_accumulation_at_end_time.
 Print Assumptions C15_moment_with_start_time_is_a_difference.
 
+(* ---- the SOURCE of PhaseTypeDistribution.accumulate / moment (translated on every run by translate/moments2coq.py into
+   gen/MomentsGen.v) is the model the theorems above are about, and therefore satisfies them ---- *)
+From PG Require Import gen.NpMoments gen.MomentsGen proofs.GenMomentsEquiv.
+From Coq Require Import Permutation.
+Section C15source.
+  Variable expm : mat (T:=R) -> mat (T:=R).
+  Variables (Ss : list (Q * mat (T:=R))) (Slast : mat (T:=R)) (alpha : vec (T:=R)) (lam : R).
+  Variable self_reward : vec (T:=R).
+  Variables self_start_time self_t_max : Q.
+  Notation raw := (raw_model expm Ss Slast alpha lam).
+
+  Theorem C15_distributions_py_accumulate_is_the_model : forall k Rs c p ts,
+    length Rs = k ->
+    PhaseTypeDistribution_accumulate OpsR raw self_reward k ts (Some Rs) c p
+    = accumulate OpsR expm k Ss Slast Rs alpha lam c p ts.
+  Proof. exact (gen_accumulate_eq expm Ss Slast alpha lam self_reward). Qed.
+
+  Theorem C15_distributions_py_moment_is_the_model : forall k Rs c p st en,
+    length Rs = k ->
+    PhaseTypeDistribution_moment OpsR raw self_reward self_start_time self_t_max k (Some Rs) (Some st) (Some en) c p
+    = moment OpsR expm k Ss Slast Rs alpha lam c p st en.
+  Proof. exact (gen_moment_eq expm Ss Slast alpha lam self_reward self_start_time self_t_max). Qed.
+
+  Theorem C15_distributions_py_moment_defaults : forall k Rs c p,
+    length Rs = k ->
+    PhaseTypeDistribution_moment OpsR raw self_reward self_start_time self_t_max k (Some Rs) None None c p
+    = moment OpsR expm k Ss Slast Rs alpha lam c p self_start_time self_t_max.
+  Proof. exact (gen_moment_defaults expm Ss Slast alpha lam self_reward self_start_time self_t_max). Qed.
+
+  Theorem C15_distributions_py_variance_formula : forall r p t,
+    nth 0 (PhaseTypeDistribution_accumulate OpsR raw self_reward 2 [t] (Some [r; r]) true p) 0
+    = U expm Ss Slast alpha lam 2 [r; r] p t - (U expm Ss Slast alpha lam 1 [r] true t) ^ 2.
+  Proof. exact (source_variance_formula expm Ss Slast alpha lam self_reward). Qed.
+
+  Theorem C15_distributions_py_third_central_formula : forall r0 r1 r2 p t,
+    nth 0 (PhaseTypeDistribution_accumulate OpsR raw self_reward 3 [t] (Some [r0; r1; r2]) true p) 0
+    = U expm Ss Slast alpha lam 3 [r0; r1; r2] p t
+      - U expm Ss Slast alpha lam 1 [r0] true t * U expm Ss Slast alpha lam 2 [r1; r2] p t
+      - U expm Ss Slast alpha lam 1 [r1] true t * U expm Ss Slast alpha lam 2 [r0; r2] p t
+      - U expm Ss Slast alpha lam 1 [r2] true t * U expm Ss Slast alpha lam 2 [r0; r1] p t
+      + 2 * U expm Ss Slast alpha lam 1 [r0] true t * U expm Ss Slast alpha lam 1 [r1] true t * U expm Ss Slast alpha lam 1 [r2] true t.
+  Proof. exact (source_third_central_formula expm Ss Slast alpha lam self_reward). Qed.
+
+  Theorem C15_distributions_py_raw_cross_moment_symmetric : forall k Rs Rs' ts,
+    Permutation Rs Rs' ->
+    PhaseTypeDistribution_accumulate OpsR raw self_reward k ts (Some Rs) false true
+    = PhaseTypeDistribution_accumulate OpsR raw self_reward k ts (Some Rs') false true.
+  Proof. exact (source_raw_cross_moment_symmetric expm Ss Slast alpha lam self_reward). Qed.
+
+  Theorem C15_itertools_permutations_is_a_rearrangement : forall (A : Type) (l : list A),
+    Permutation (it_permutations l) (permutations l).
+  Proof. exact it_permutations_perm. Qed.
+End C15source.
+Print Assumptions C15_distributions_py_accumulate_is_the_model.
+Print Assumptions C15_distributions_py_moment_is_the_model.
+Print Assumptions C15_distributions_py_moment_defaults.
+Print Assumptions C15_distributions_py_variance_formula.
+Print Assumptions C15_distributions_py_third_central_formula.
+Print Assumptions C15_distributions_py_raw_cross_moment_symmetric.
+Print Assumptions C15_itertools_permutations_is_a_rearrangement.
+
 Theorem C15_sum_reward_linear :
   forall n rs s, reward_get OpsR n (RSum rs) s = fold_right Rplus 0 (map (fun r => reward_get OpsR n r s) rs).
 Proof. exact sum_reward_linear. Qed.
